@@ -16,24 +16,27 @@ def explore(tier):
     thorough tier) and simulated behaviours.  Returns (schemas, edges by gid, stats)."""
     schemas = msgleg.curated()
     path = _write_given([{"env": e} for e in schemas])
-    edges = {i + 1: [] for i in range(len(schemas))}
+    # transitions are kept as the raw JSON text TLC printed (parsed in the workers, one at a time): the parsed
+    # form of the thorough tier's edges does not fit into memory
+    edges = {i + 1: {"base": [], "sampled": []} for i in range(len(schemas))}
     stats = []
+    import re
+    import zlib
+    gid_re = re.compile(r'"gid":(\d+)')
 
-    def collect(tag, body):
-        e = json.loads(body)
-        edges[e["gid"]].append(e)
+    def collect(tag, body, where="base"):
+        edges[int(gid_re.search(body).group(1))][where].append(body)
 
     res = run_tlc("Msg", {"ExhaustiveLevels": 0, "MaxLevel": 1}, invariants=["AlwaysValid"], properties=MSG_PROPS, spec="MSpec",
                   prefix=("MTR",), constraint="LevelBound", env={"GIVEN_FILE": path}, on_line=collect)
     stats.append(res.stats)
     if tier != "quick":
         # every operation from every state one operation away from the default state: TLC checks the action
-        # properties on all 2.6 million edges; one in twelve (by checksum) is replayed into the real messages
-        import zlib
-
+        # properties on all 2.6 million edges; one (state, operation) in twelve (by checksum) is replayed into the
+        # real messages - with ALL the outcomes the model allows for it
         def collect_sampled(tag, body):
-            if zlib.crc32(body.encode()) % 12 == 0:
-                collect(tag, body)
+            if zlib.crc32(edge_key(body).encode()) % 12 == 0:
+                collect(tag, body, "sampled")
         res = run_tlc("Msg", {"ExhaustiveLevels": 1, "MaxLevel": 1}, invariants=["AlwaysValid"], properties=MSG_PROPS,
                       spec="MSpec", prefix=("MTR",), constraint="LevelBound", env={"GIVEN_FILE": path},
                       on_line=collect_sampled)
@@ -44,6 +47,16 @@ def explore(tier):
                   seed=seed(), workers=1)
     stats.append(res.stats)
     return schemas, edges, stats
+
+
+def edge_key(body):
+    """The (schema, pre-state, message, operation) part of a printed transition:
+    TLC prints a record's fields in alphabetical order, so the allowed outcome
+    ("out") and the new value ("v") are the tail of the line."""
+    k = body.rfind(',"out":')
+    if k < 0 or '"v":' not in body[k:]:
+        raise MachineryError("unexpected field order in a transition line: %s" % body[:200])
+    return body[:k]
 
 
 C11_OPS = ("copy_from", "copy_from_wrong", "extendother", "extendself")
@@ -113,14 +126,19 @@ def _run(pid, tier):
             rep.violation(f, shadows.match(pid, f))
     n_walks, walk_len = (150, 6) if tier == "quick" else (2000, 7)
     jobs = []
+    import zlib
     for gid, defs in enumerate(schemas, 1):
-        es = edges[gid]
-        if not es:
+        base, sampled = edges[gid]["base"], edges[gid]["sampled"]
+        if not base:
             raise MachineryError("TLC produced no transitions for schema %d" % gid)
-        parts = max(1, min(4, len(es) // 4000))
+        # job 0 of a schema: the level-0 and simulated edges (replayed, and the graph of the history walks);
+        # further jobs: the sampled deeper edges, split so that all outcomes of one (state, operation) stay together
+        jobs.append((gid, defs, base, n_walks, walk_len, seed() * 100 + gid, {"scratch": scratch_dir("msg")}))
+        parts = max(1, min(6, len(sampled) // 3000)) if sampled else 0
         for k in range(parts):
-            jobs.append((gid, defs, es, n_walks if k == 0 else 0, walk_len, seed() * 100 + gid,
-                         {"scratch": scratch_dir("msg"), "replay": (k, parts)}))
+            mine = [x for x in sampled if zlib.crc32(edge_key(x).encode()) // 12 % parts == k]
+            jobs.append((gid, defs, mine, 0, walk_len, seed() * 100 + gid, {"scratch": scratch_dir("msg")}))
+    jobs.sort(key=lambda j: -sum(len(x) for x in j[2]))
     with ProcessPoolExecutor(max_workers=min(NCPU, len(jobs))) as ex:
         results = list(ex.map(msgleg.worker, *zip(*jobs)))
     n_nontrivial = 0
